@@ -171,14 +171,15 @@ def ensure(flavour, verbose=False):
             os.rename(tmp, ov)
         except OSError:
             shutil.rmtree(tmp, ignore_errors=True)
-    # drop old overlays of this flavour (keep the newest 3)
+    # drop old overlays of this flavour (keep the 10 most recently used: concurrent runs on scratch trees each have one)
     try:
+        os.utime(ov)
         base = os.path.dirname(ov)
         olds = sorted(
             (d for d in os.listdir(base) if d.startswith(flavour + "-") and os.path.join(base, d) != ov),
             key=lambda d: os.path.getmtime(os.path.join(base, d)),
         )
-        for d in olds[:-3]:
+        for d in olds[:-10]:
             shutil.rmtree(os.path.join(base, d), ignore_errors=True)
     except OSError:
         pass
